@@ -77,7 +77,10 @@ def parseStore (j : Json) : R Store := do
   let attrs ← (← arr j "attrs").toList.mapM (·.getStr?)
   pure { span := span, spanKind := kind, getLoc := getLoc, vars := vars, hidden := ← nat j "hidden",
          attrs := attrs, strict := ← bool j "strict", defaultKind := ← parseOptKind j "defaultKind",
-         extraSize := ← nat j "extraSize", extraBytes := ← nat j "extraBytes" }
+         extraSize := ← nat j "extraSize", extraBytes := ← nat j "extraBytes",
+         extraKeys := ← (match optObj j "extraKeys" with
+           | none => pure []
+           | some v => do (← v.getArr?).toList.mapM (·.getStr?)) }
 
 def optNat (j : Json) (k : String) : R (Option Nat) :=
   match optObj j k with
